@@ -3,7 +3,7 @@ CONSTANTS
   TlsOn = TRUE
   AuthOn = TRUE
   KF_FlagsSurviveTls = FALSE
-  KF_BufferSurvivesTls = FALSE
+  KF_BufferSurvivesTls = TRUE
   KF_BareArg421 = FALSE
   KF_PlainAuthNoTls = FALSE
 INVARIANT C07_Order
